@@ -5,20 +5,30 @@
    section.
    Part B transcribes the addrConn state machine at the level of its state updates
    (connect / resetTransportAndUnlock / createTransport success and failure / the onClose
-   callback of the transport / the back-off wait / resetConnectBackoff / updateAddrs /
-   tearDown), every
+   callback of the transport (connection lost, or GOAWAY received) / the back-off wait /
+   resetConnectBackoff / updateAddrs / tearDown / startHealthCheck and its
+   setConnectivityState closure), every
    update going through addrConn.updateConnectivityState (no-op when the state is unchanged)
    into acBalancerWrapper.updateState = a FIFO (the balancer wrapper's CallbackSerializer,
    C31) drained by ADeliver; the callback drops the update when the serializer context is
    cancelled (ccBalancerWrapper closed).  Dial mechanics are abstracted to the outcome of
    the dial (op ADial).  Each op is one critical section of ac.mu plus the goroutine-local
-   code up to the next blocking point (dial, back-off select).
+   code up to the next blocking point (dial, back-off select, health stream receive).
    States: 0 IDLE, 1 CONNECTING, 2 READY, 3 TRANSIENT_FAILURE, 4 SHUTDOWN.
    updateAddrs is modelled for single-address lists that are either the current list (no-op)
    or a never-used address (so a READY sub-channel is "connected to the wrong address").
-   Not modelled: client-side health checking (setConnectivityState), several
-   addresses per sub-channel, the "transport created but already closed" branch of
-   createTransport (hctx.Err() != nil => IDLE).  No proofs in this file. *)
+   Client-side health checking (gRFC A17, the addrConn-level mechanism: service config
+   healthCheckConfig + NewSubConnOptions.HealthCheckEnabled + internal.HealthCheckFunc):
+   createTransport's success does not report READY; startHealthCheck starts the health
+   checker, whose protocol loop (health/client.go clientHealthCheck) is transcribed as hph /
+   hmsg: it reports CONNECTING when it opens a Watch stream, READY on SERVING, TF on any
+   other status, READY and stops on Unimplemented, TF on any other stream error and then
+   retries (at once if a message had been received on the stream, else after its own
+   back-off); every report goes through setConnectivityState, which is dropped once
+   ac.transport is no longer the transport the checker was started for.
+   Not modelled: several addresses per sub-channel, the "transport created but already
+   closed" branch of createTransport (hctx.Err() != nil => IDLE), the health producer
+   (SubConn.RegisterHealthListener), which leaves ac.state alone.  No proofs in this file. *)
 From Coq Require Import List ZArith Bool.
 From VLib Require Import Codec.
 Import ListNotations.
@@ -113,26 +123,41 @@ Fixpoint arun (a : stA) (l : list aop) : stA :=
    back-off select; tr = ac.transport != nil; q = updates scheduled on the serializer and not
    yet run; lbopen = serializer context live; dl = updates delivered to the LB policy's
    StateListener (ghost: hist = every update ever emitted); chs = channel state manager fed
-   by the LB policy, which republishes every sub-channel state except SHUTDOWN. *)
+   by the LB policy, which republishes every sub-channel state except SHUTDOWN.
+   hcf = client-side health checking is configured for this sub-channel (constant);
+   hph = the health checker goroutine of the current transport: 0 none (never started,
+   returned, or its context is cancelled), 1 blocked in RecvMsg on an open Watch stream,
+   2 blocked in its retry back-off; hmsg = a response was received on the current stream
+   (clientHealthCheck's tryCnt is 0). *)
 Record stB := mkB { ast : Z; phase : Z; tr : bool; q : list Z; lbopen : bool; dl : list Z;
-                    hist : list Z; chs : Z; ccclosed : bool }.
-Definition stB0 : stB := mkB 0 0 false [] true [] [] 1 false.
+                    hist : list Z; chs : Z; ccclosed : bool; hcf : bool; hph : Z; hmsg : bool }.
+Definition stBi (h : bool) : stB := mkB 0 0 false [] true [] [] 1 false h 0 false.
+Definition stB0 : stB := stBi false.
 
-Inductive bop := BConnect | BDial (ok : bool) | BServerClose | BTimer | BShutdown | BClose | BReset
-               | BUpdAddrs (fresh : bool) | BDeliver | BNop.
+(* BHealth k: the health stream delivers 1 SERVING, 0 any other status, 2 an error other than
+   Unimplemented, 3 Unimplemented.  BServerClose g: onClose of the current transport, g = it
+   is a GOAWAY (graceful) rather than a lost connection. *)
+Inductive bop := BConnect | BDial (ok : bool) | BServerClose (g : bool) | BTimer | BShutdown | BClose | BReset
+               | BUpdAddrs (fresh : bool) | BHealth (k : Z) | BHBackoff | BDeliver | BNop.
 
 (* addrConn.updateConnectivityState *)
 Definition emit (b : stB) (s : Z) : stB :=
   if ast b =? s then b else
-  mkB s (phase b) (tr b) (q b ++ [s]) (lbopen b) (dl b) (hist b ++ [s]) (chs b) (ccclosed b).
+  mkB s (phase b) (tr b) (q b ++ [s]) (lbopen b) (dl b) (hist b ++ [s]) (chs b) (ccclosed b)
+      (hcf b) (hph b) (hmsg b).
 Definition set_phase (b : stB) (ph : Z) : stB :=
-  mkB (ast b) ph (tr b) (q b) (lbopen b) (dl b) (hist b) (chs b) (ccclosed b).
+  mkB (ast b) ph (tr b) (q b) (lbopen b) (dl b) (hist b) (chs b) (ccclosed b) (hcf b) (hph b) (hmsg b).
 Definition set_tr (b : stB) (t : bool) : stB :=
-  mkB (ast b) (phase b) t (q b) (lbopen b) (dl b) (hist b) (chs b) (ccclosed b).
+  mkB (ast b) (phase b) t (q b) (lbopen b) (dl b) (hist b) (chs b) (ccclosed b) (hcf b) (hph b) (hmsg b).
+Definition set_h (b : stB) (hp : Z) (hm : bool) : stB :=
+  mkB (ast b) (phase b) (tr b) (q b) (lbopen b) (dl b) (hist b) (chs b) (ccclosed b) (hcf b) hp hm.
+(* the health checker's context (hctx) is cancelled: it makes one more report, which
+   setConnectivityState drops (ac.transport != currentTr), and returns *)
+Definition kill_h (b : stB) : stB := set_h b 0 false.
 
 (* tearDown: Shutdown first, then cancel (which ends a parked connect goroutine) *)
 Definition teardown (b : stB) : stB :=
-  if ast b =? 4 then b else set_phase (emit (set_tr b false) 4) 0.
+  if ast b =? 4 then b else set_phase (emit (set_tr (kill_h b) false) 4) 0.
 
 Definition ch_update (c s : Z) : Z := if c =? 4 then c else s.
 
@@ -142,13 +167,15 @@ Definition bstep (b : stB) (o : bop) : stB :=
     if (ast b =? 0) && (phase b =? 0) then set_phase (emit b 1) 1 else b
   | BDial ok =>
     if phase b =? 1 then
-      if ok then                                 (* ac.transport = newTr; startHealthCheck => READY *)
-        set_phase (emit (set_tr b true) 2) 0
+      if ok then                                 (* ac.transport = newTr; startHealthCheck: *)
+        if hcf b then                            (* the checker manages the state: it reports *)
+          set_phase (set_h (set_tr b true) 1 false) 0   (* CONNECTING (no change), opens its stream *)
+        else set_phase (emit (set_tr b true) 2) 0       (* no health checking => READY *)
       else                                       (* TRANSIENT_FAILURE, then wait for the back-off *)
         set_phase (emit b 3) 2
     else b
-  | BServerClose =>        (* onClose of the current transport *)
-    if tr b && negb (ast b =? 4) then emit (set_tr b false) 0 else b
+  | BServerClose _ =>      (* onClose of the current transport (connection lost / GOAWAY): hcancel, *)
+    if tr b && negb (ast b =? 4) then emit (set_tr (kill_h b) false) 0 else b   (* transport = nil, IDLE *)
   | BTimer =>              (* back-off timer fired *)
     if phase b =? 2 then set_phase (emit b 0) 0 else b
   | BReset =>              (* resetConnectBackoff closes the resetBackoff channel *)
@@ -156,24 +183,40 @@ Definition bstep (b : stB) (o : bop) : stB :=
   | BShutdown => teardown b
   | BUpdAddrs fresh =>     (* addrConn.updateAddrs: same list => nothing.  A new address: *)
     if fresh then
-      if ast b =? 2 then   (* READY, connected to an address no longer listed: drop the transport, *)
-        set_phase (emit (set_tr b false) 1) 1     (* cancel ac.ctx, go resetTransportAndUnlock: CONNECTING *)
+      if (ast b =? 2) || (ast b =? 1) then
+        (* READY, connected to an address no longer listed, or CONNECTING (dialing, or the health
+           checker of a fresh transport says so): cancel ac.ctx, drop the transport, go
+           resetTransportAndUnlock: CONNECTING, one dial parked *)
+        set_phase (emit (set_tr (kill_h b) false) 1) 1
       else b               (* SHUTDOWN / TRANSIENT_FAILURE / IDLE: only ac.addrs changes ("we were not
-                              connecting"); CONNECTING: the attempt is cancelled and restarted - still
-                              CONNECTING, again one dial parked *)
+                              connecting"), also when the TRANSIENT_FAILURE is the health checker's *)
     else b
+  | BHealth k =>           (* the Watch stream yields a response / ends; setConnectivityState *)
+    if hph b =? 1 then
+      if k =? 1 then emit (set_h b 1 true) 2                 (* SERVING *)
+      else if k =? 0 then emit (set_h b 1 true) 3            (* NOT_SERVING, UNKNOWN, SERVICE_UNKNOWN *)
+      else if k =? 3 then emit (set_h b 0 false) 2           (* Unimplemented: READY, checker returns *)
+      else if k =? 2 then                                    (* other error: TRANSIENT_FAILURE, retry: *)
+        let b1 := emit b 3 in
+        if hmsg b then emit (set_h b1 1 false) 1             (* at once: CONNECTING, new stream *)
+        else set_h b1 2 false                                (* after the checker's back-off *)
+      else b
+    else b
+  | BHBackoff =>           (* the checker's retry back-off ends: CONNECTING, new stream *)
+    if hph b =? 2 then emit (set_h b 1 false) 1 else b
   | BClose =>              (* ClientConn.Close: csMgr SHUTDOWN, balancer wrapper closed, conns torn down *)
     if ccclosed b then b else
     let b1 := teardown b in
-    mkB (ast b1) (phase b1) (tr b1) (q b1) false (dl b1) (hist b1) 4 true
+    mkB (ast b1) (phase b1) (tr b1) (q b1) false (dl b1) (hist b1) 4 true (hcf b1) (hph b1) (hmsg b1)
   | BDeliver =>            (* the serializer runs the oldest callback *)
     match q b with
     | [] => b
     | s :: r =>
       if lbopen b then
         mkB (ast b) (phase b) (tr b) r (lbopen b) (dl b ++ [s]) (hist b)
-            (if s =? 4 then chs b else ch_update (chs b) s) (ccclosed b)
+            (if s =? 4 then chs b else ch_update (chs b) s) (ccclosed b) (hcf b) (hph b) (hmsg b)
       else mkB (ast b) (phase b) (tr b) r (lbopen b) (dl b) (hist b) (chs b) (ccclosed b)
+               (hcf b) (hph b) (hmsg b)
     end
   | BNop => b
   end.
@@ -201,7 +244,15 @@ Fixpoint drain (fuel : nat) (b : stB) : stB :=
      sub-channel is backing off, the back-off ends (resetBackoff closed) while tearDown is
      already waiting for ac.mu: tearDown runs first and the connect goroutine's re-check of
      its context must keep it from reporting IDLE after SHUTDOWN - same model step as [5]
-     obs [n; the n states delivered to the LB policy during the op; ac.state; channel state] *)
+     [12] the server sends GOAWAY on the connection (graceful close)
+     obs [n; the n states delivered to the LB policy during the op; ac.state; channel state;
+          health checker phase]
+   cfg [1;h]    as [1]; h=1: client-side health checking is on for the sub-channel (service
+                config healthCheckConfig, NewSubConnOptions.HealthCheckEnabled, a health check
+                function installed in internal.HealthCheckFunc), further ops:
+     [10;k] the Watch stream of the health checker yields k: 1 SERVING, 0 NOT_SERVING,
+     2 an error other than Unimplemented, 3 Unimplemented   [11] the checker's retry back-off ends
+     health checker phase in obs: 0 not running, 1 waiting on its stream, 2 in its back-off *)
 Definition decA (op : word) : list aop :=
   match op with
   | [1; s] => if (0 <=? s) && (s <=? 4) then [AUpdate s] else []
@@ -214,13 +265,16 @@ Definition decB (op : word) : bop :=
   match op with
   | [1] => BConnect
   | [2; ok] => BDial (negb (ok =? 0))
-  | [3] => BServerClose
+  | [3] => BServerClose false
   | [4] => BTimer
   | [5] => BShutdown
   | [6] => BClose
   | [7] => BReset
   | [8; same] => BUpdAddrs (same =? 0)
   | [9] => BShutdown
+  | [10; k] => if (0 <=? k) && (k <=? 3) then BHealth k else BNop
+  | [11] => BHBackoff
+  | [12] => BServerClose true
   | _ => BNop
   end.
 
@@ -235,7 +289,7 @@ Definition stepB (b : stB) (op : word) : stB :=
   let b1 := bstep b (decB op) in drain (S (length (q b1))) b1.
 Definition obsB (b0 b1 : stB) : word :=
   let d := skipn (length (dl b0)) (dl b1) in
-  Z.of_nat (length d) :: d ++ [ast b1; chs b1].
+  Z.of_nat (length d) :: d ++ [ast b1; chs b1; hph b1].
 Fixpoint execB (b : stB) (ops : list word) : list word :=
   match ops with
   | [] => []
@@ -246,6 +300,7 @@ Definition run (cfg : word) (ops : list word) : option (list word) :=
   match cfg with
   | [0; n] => if (0 <=? n) && (n <=? 6) then Some (execA (mkA csm0 (repeat w0 (Z.to_nat n))) ops) else None
   | [1] => Some (execB stB0 ops)
+  | [1; h] => if (h =? 0) || (h =? 1) then Some (execB (stBi (h =? 1)) ops) else None
   | _ => None
   end.
 
@@ -295,27 +350,50 @@ Definition clausesA_op (a : stA) (op o : word) : list (Z * Z * bool) :=
   | [] => [(0, 0, false)]
   end.
 
+(* What client-side health checking adds to the transitions the statement names (gRFC A17):
+   while the health checker manages the state of a connected sub-channel (f), TRANSIENT_FAILURE
+   is also left to READY (the server reports SERVING again / Unimplemented) and to CONNECTING
+   (the checker retries its stream) *)
+Definition allowedR (f : bool) (o n : Z) : bool :=
+  allowed o n || (f && (o =? 3) && ((n =? 2) || (n =? 1))).
+Fixpoint chain_okR (f : bool) (o : Z) (l : list Z) : bool :=
+  match l with [] => true | n :: r => allowedR f o n && chain_okR f n r end.
+
+(* IDLE straight after TRANSIENT_FAILURE is delivered only in an op that ends the back-off;
+   f: or in an op that takes the connection away from a sub-channel whose health checker
+   had reported TRANSIENT_FAILURE *)
+Definition idle_rule (f : bool) (prev : Z) (d : list Z) (o : bop) : bool :=
+  if (prev =? 3) && (match d with 0 :: _ => true | _ => false end)
+  then match o with BTimer | BReset => true | BServerClose _ => f | _ => false end else true.
+
+(* the health checker manages the state: health checking configured and a transport present *)
+Definition hmanaged (b : stB) : bool := hcf b && tr b.
+
 (* part B, per op, relative to the model state b before the op:
    3 the states delivered to the LB policy continue the chain of allowed transitions from the
      last delivered one (hence nothing after SHUTDOWN, READY only after CONNECTING, TF only to
      IDLE or SHUTDOWN), and a delivery of IDLE after TRANSIENT_FAILURE happens only in an op
-     that lets the back-off end (time passes / ResetConnectBackoff)
+     that lets the back-off end (time passes / ResetConnectBackoff); when the health checker
+     manages the state before the op, the relation is the one extended by gRFC A17
    4 none missed: after the op the last state delivered to the LB policy is the sub-channel's
      current state (while the balancer wrapper is open); the channel reports SHUTDOWN after
      Close
    5 nothing leaves SHUTDOWN: once the sub-channel was SHUTDOWN before the op, or SHUTDOWN is
-     delivered during it, ac.state after the op is SHUTDOWN *)
+     delivered during it, ac.state after the op is SHUTDOWN
+   (client-side health checking is not among the event kinds C30 ranges over; the gRFC A17
+   transitions of a health-managed sub-channel - TRANSIENT_FAILURE -> READY / CONNECTING, or
+   -> IDLE on losing its connection - are in the model, compared by correspondence, and
+   accepted by clause 3 through the extended relation; there is no separate literal clause) *)
 Definition last_or (d : Z) (l : list Z) : Z := last l d.
 Definition clausesB_op (b : stB) (op o : word) : list (Z * Z * bool) :=
   match o with
   | n :: r =>
     if n <? 0 then [(0, 0, false)] else
     match take_n (Z.to_nat n) r with
-    | Some (d, [a'; c']) =>
+    | Some (d, [a'; c'; _]) =>
       let prev := last_or 0 (dl b) in
-      [(3, n, chain_ok prev d &&
-              (if (prev =? 3) && (match d with 0 :: _ => true | _ => false end)
-               then match decB op with BTimer | BReset => true | _ => false end else true));
+      let f := hmanaged b in
+      [(3, n, chain_okR f prev d && idle_rule f prev d (decB op));
        (4, a', (if lbopen b && negb (match decB op with BClose => negb (ccclosed b) | _ => false end)
                 then last_or prev d =? a' else true) &&
                (if ccclosed (bstep b (decB op)) then c' =? 4 else true));
@@ -346,6 +424,7 @@ Definition clauses (cfg : word) (ops obs : list word) : list (Z * Z * bool) :=
   match cfg with
   | [0; n] => if (0 <=? n) && (n <=? 6) then walkA (mkA csm0 (repeat w0 (Z.to_nat n))) ops obs else [(0, 0, false)]
   | [1] => walkB stB0 ops obs
+  | [1; h] => if (h =? 0) || (h =? 1) then walkB (stBi (h =? 1)) ops obs else [(0, 0, false)]
   | _ => [(0, 0, false)]
   end.
 Definition holds_b (cfg : word) (ops obs : list word) : bool :=
